@@ -27,7 +27,10 @@ RENDERERS = {
     'xwiki': ('mistletoe.contrib.xwiki20_renderer', 'XWiki20Renderer', {}),
 }
 PROBES = ['hello world\n', '# h #\n\ntext\n', '```py\ncode\n```\n', '<div>\nx\n</div>\n\ny\n', '> q\n> r\n\nfoo\n===\n', 'x `code` **a**b* y\n',
-          'a\n===\n\nb\n---\n', '| a |\n| - |\n| b |\n', '[x]: /u "t"\n\n[x] and [y]\n', '- a\n\n  b\n- c\n1. d\n', '    indented\n\n<!-- c -->\n']
+          'a\n===\n\nb\n---\n', '| a |\n| - |\n| b |\n', '[x]: /u "t"\n\n[x] and [y]\n', '- a\n\n  b\n- c\n1. d\n', '    indented\n\n<!-- c -->\n',
+          # per-class scratch of the block readers: a value left by one document must not steer the next
+          '<!-- a comment -->\n\nsome text\n', '<my-widget>\n\nhello *world*\n', '<pre>\nx\n\ny</pre>\n\nz\n', '<?php x ?>\n\nt\n', '<![CDATA[\nx\n]]>\n\nt\n',
+          '</my-widget>\n\npara\n', '~~~ info\nfenced\n~~~\n', '###### six ######\n', '#\n', '````\nunclosed\n']
 RAISE_DOCS = ['> quote `c1`\n> more\n\npara `code` *x* [l](u)\n\n```\nf\n```\n\n# h\n', '- item `k`\n\n  > q\n  > r\n\n<div>\n\ntail `z`\n']
 
 
